@@ -985,6 +985,7 @@ def c12(tier):
     drift = 0
     states = trans = nrec = 0
     tag_of = {r["id"]: r.get("tag", "") for r in inputs}
+    events = collections.Counter()
     for cfg, variant in plan:
         outs = run_records(wd, "run_bigint", inputs, [cfg], name="bigint-" + variant)[cfg]
         outs = [o for o in outs if o["res"]["r"] != "skip"]
@@ -998,6 +999,8 @@ def c12(tier):
         by_id = {o["id"]: o for o in outs}
         for rid, v in verd.items():
             trails["%s: %s > %s" % (variant, v["trail"][0], v["trail"][1])] += 1
+            for e in v.get("ev", []):
+                events[e] += 1
             if v["trail"][2] == "DRIFT":
                 drift += 1
             if v["verdict"] == "impl_violates":
@@ -1009,6 +1012,20 @@ def c12(tier):
         states += res.distinct
         trans += res.generated
         nrec += len(outs)
+    EXPECTED_EVENTS = ["sa:empty", "sa:no-carry", "sa:ripple-stops", "sa:carry-into-new-limb", "sa:ripple>=3", "sa:zero-addend",
+                       "sm:empty", "sm:by-zero", "sm:by-one", "sm:carry-into-new-limb", "sm:no-new-limb", "sm:zero-limb-inside",
+                       "laf:resize", "laf:no-resize", "laf:gap-below-start", "laf:final-carry-new-limb", "laf:start0", "laf:offset",
+                       "laf:same-top-no-carry", "mul:single-limb-y", "mul:zero-limb-in-y", "mul:y0-zero", "mul:zero-limb-in-x",
+                       "mul:lengths-sum-cap+1", "mul:lengths-sum-cap", "mul:product-one-limb-short", "mul:empty-operand",
+                       "pow:zero", "pow:large0", "pow:large1", "pow:large>=2", "pow:small0", "pow:small>=2", "pow:no-remainder",
+                       "pow:exact-multiple-of-large", "pow:single-limb-x", "shl:whole-limbs", "shl:bits-only", "shl:bits+limbs", "shl:zero",
+                       "shl:carry-out-of-top", "shlb:carry-out", "shlb:no-carry", "shll:beyond-cap", "shll:exactly-cap", "shll:empty",
+                       "hi:len0", "hi:len1", "hi:len2", "hi:len>=3", "hi:top-aligned", "hi:sticky-only-deep", "hi:nothing-deep",
+                       "cmp:lengths-differ", "cmp:equal", "cmp:top-limb-differs", "cmp:deeper-limb-differs",
+                       "norm:nothing", "norm:two-or-more", "norm:to-empty"]
+    never = [e for e in EXPECTED_EVENTS if events[e] == 0]
+    if never:
+        core.log("NOTE: specification events never exercised by the validated records: %s" % never)
     cov = {
         "states": states + sum(m.distinct for m in mcs), "transitions": trans + sum(m.generated for m in mcs),
         "traces_validated_against_impl": nrec, "evaluations": nrec,
@@ -1020,7 +1037,8 @@ def c12(tier):
                 "beyond the capacity, pow exponents across the 27 / 135 steps up to overflow, in stack and heap builds; TLC "
                 "compares the returned contents with the natural-number result and with the limb-level model",
         "samples": [{k: (v if k not in ("x", "y") else "%d limbs" % len(v)) for k, v in r.items()} for r in inputs[:: max(1, len(inputs) // 6)]][:7],
-        "spec_trails": dict(trails), "model_vs_impl_drift": drift, "mc_states": [m.distinct for m in mcs],
+        "spec_trails": dict(trails), "spec_events": dict(sorted(events.items())), "spec_events_never_seen": never,
+        "model_vs_impl_drift": drift, "mc_states": [m.distinct for m in mcs],
         "configs": [p[0] for p in plan], "exhaustive": False,
     }
     core.write_evidence("C12", tier, "model_checking", cov, time.time() - t0, len(violations),
